@@ -65,7 +65,13 @@ func EscapeMetricName(metricName string) string {
 				sb.Grow(metricLen)
 			}
 			sb.WriteString(metricName[offset:i])
-			offset = i + utf8.RuneLen(c)
+			runeLen := utf8.RuneLen(c)
+			if c == utf8.RuneError {
+				// An invalid byte decodes to RuneError (3 bytes when encoded)
+				// but only occupies a single byte of the input.
+				_, runeLen = utf8.DecodeRuneInString(metricName[i:])
+			}
+			offset = i + runeLen
 			sb.WriteByte('_')
 		}
 
